@@ -1475,9 +1475,10 @@ func (E *Engine) appendBuiltin(fr *Frame, st *State, cc *ssa.CallCommon, args []
 		if !fr.spec {
 			base := tb.Ite(fits, tb.Arith("+", E.slcOff(s), E.slcLen(s)), E.slcLen(s))
 			E.addFact(st, tb.And(
-				// appended part
-				tb.Forall([]*Term{i}, tb.Implies(tb.And(tb.Cmp("<=", tb.Int(0), i), tb.Cmp("<", i, n)),
-					tb.Eq(tb.Select(na, tb.Arith("+", base, i)), tb.Select(srcArr, tb.Arith("+", E.slcOff(add), i))))),
+				// appended part, quantified over the absolute position in the target (so that a read of the
+				// target array triggers the instantiation): na[p] = src[srcOff + (p - base)] for base <= p < base+n
+				tb.Forall([]*Term{i}, tb.Implies(tb.And(tb.Cmp("<=", base, i), tb.Cmp("<", i, tb.Arith("+", base, n))),
+					tb.Eq(tb.Select(na, i), tb.Select(srcArr, tb.Arith("+", E.slcOff(add), tb.Arith("-", i, base)))))),
 				// in place: everything outside the appended window unchanged
 				tb.Implies(fits, tb.Forall([]*Term{i}, tb.Implies(tb.Or(tb.Cmp("<", i, base), tb.Cmp(">=", i, tb.Arith("+", base, n))),
 					tb.Eq(tb.Select(na, i), tb.Select(oldDst, i))))),
